@@ -177,6 +177,7 @@ type Case struct {
 	Ctl         []CtlStep         `json:"ctl,omitempty"` // main history through LoadBalancerController.sync (with -ctl)
 	Leader      *LeaderObs        `json:"leader,omitempty"`
 	WeightProbe *k8s.VWeightProbe `json:"weight_probe,omitempty"`
+	WeightPend  *k8s.VWeightProbe `json:"weight_probe_pending,omitempty"`
 	PolicyProbe *PolicyProbeObs   `json:"policy_probe,omitempty"`
 	Error       string            `json:"error,omitempty"`
 }
@@ -797,7 +798,7 @@ func (g *gen) listenerSeed() []Event {
 // nothing else happens in between: a resource that loses a contest is deleted and created again at once (state
 // cached per key must not survive the object); three minions contend for one path with key order different
 // from age order; an orphan route or minion is deleted and re-created.
-const nEpisodes = 12
+const nEpisodes = 13
 
 // episode: which < 0 picks one at random
 func (g *gen) episode(which int) []Event {
@@ -997,6 +998,24 @@ func (g *gen) episode(which int) []Event {
 			b.Gen++
 			b.Paths = []string{"/a", "/c"}
 			up(b, "episode-minion-edit")
+		}
+	case 12:
+		// the referencing route is written with a trailing slash: "/a/" delegates "/a/..." and nothing else, a route
+		// whose subroute merely starts with "/a" ("/ab", "/a-x") is not under it
+		h := vh.Pick(r, hosts[:3])
+		v := mk("vs", "ns1", "a", stamps[0])
+		v.Host, v.Routes = h, [][2]string{{"/a/", "b"}}
+		up(v, "episode-vs-trailing-slash")
+		rt := mk("vsr", "ns1", "b", stamps[1])
+		rt.Host, rt.Subpaths = h, []string{"/a/x"}
+		rt = up(rt, "episode-vsr")
+		rt.Gen++
+		rt.Subpaths = []string{vh.Pick(r, []string{"/ab", "/a-x", "/ab/x"})}
+		rt = up(rt, "episode-vsr-sibling-of-the-prefix")
+		if r.Bool() {
+			rt.Gen++
+			rt.Subpaths = []string{"/a/", "/a/y"}
+			up(rt, "episode-vsr-edit")
 		}
 	case 2:
 		// three minions on one path; the first in key order is the youngest
@@ -1234,16 +1253,18 @@ func runCtl(c *Case, anns map[string]int) (err error) {
 	}
 	wp := v.WeightProbe()
 	c.WeightProbe = &wp
+	wpp := v.WeightProbePending()
+	c.WeightPend = &wpp
 	// a Policy in use moves to another class: the rule it contributed must leave the VirtualServer
 	pp := &PolicyProbeObs{}
-	if err := v.PolicyProbe(1); err == nil {
+	if err := v.PolicyProbe(1, c.ID); err == nil {
 		pp.Before = strings.Contains(mgr.conf["vs_pp_cafe"], "deny 10.11.12.13;")
-		if err := v.PolicyProbe(2); err == nil {
+		if err := v.PolicyProbe(2, c.ID); err == nil {
 			pp.After = strings.Contains(mgr.conf["vs_pp_cafe"], "deny 10.11.12.13;")
 			pp.Ran = true
 		}
 	}
-	_ = v.PolicyProbe(3)
+	_ = v.PolicyProbe(3, c.ID)
 	c.PolicyProbe = pp
 	c.Leader = &LeaderObs{Writes: v.Leader(), Policies: k8s.VerifPolicies}
 	return nil
